@@ -109,6 +109,8 @@ def correspond(ctx, scale):
         big = ci % 6 == 5
         if big:
             K = rng.choice([1, 2])
+        if ci % 6 == 4:
+            cosine = False          # first call under CPU autocast (below): the Euclidean sum invariant is the one that sees low-precision centroid sums
         if ci % 7 == 6:
             heads, sep, K = 2, True, 8          # separate codebooks per head with MORE codes than the first batch has tokens (set below)
         if ci % 5 == 2 and (ci // 5) % 3 == 0:
@@ -153,7 +155,7 @@ def correspond(ctx, scale):
             kwargs['mask'] = m
             x = torch.where(m[..., None], x, torch.full_like(x, 1e6 if rng.random() < 0.5 else -3e4))   # adversarial padding
         first_mode = rng.choice(['eval', 'train', 'frozen'])
-        if big or ci % 7 == 6 or (ci % 5 == 2 and nn_ >= 2):
+        if big or ci % 7 == 6 or (ci % 5 == 2 and nn_ >= 2) or ci % 6 == 4:
             first_mode = ['eval', 'frozen'][(ci // 6) % 2]       # the initialisation invariants are read off a pure first call: big batches always get one
         vq.train(first_mode != 'eval')
         if first_mode == 'frozen':
